@@ -21,11 +21,12 @@ S(o, a) == [op |-> o, arg |-> a]
 Seed0 == <<>>
 Seed1 == <<S("NewClient", 0)>>
 Seed2 == <<S("AddVersion", 0)>>
+Seed2b == <<S("AddVersion", 0), S("AddVersion", 101)>>
 Seed3 == <<S("AddVersion", 0), S("AddVersion", 101), S("AddSnapshot", 101)>>
 Seed4 == <<S("AddVersion", 90), S("AddVersion", 101), S("AddVersion", 102), S("AddSnapshot", 102), S("AddVersion", 103)>>
 Seed6 == <<S("AddVersion", 0), S("AddVersion", 101), S("AddVersion", 102), S("AddVersion", 103), S("AddVersion", 104), S("AddVersion", 105)>>
-SeedsAll   == {Seed0, Seed1, Seed2, Seed3, Seed4, Seed6}
-SeedsSmall == {Seed0, Seed2, Seed3}
+SeedsAll   == {Seed0, Seed1, Seed2, Seed2b, Seed3, Seed4, Seed6}
+SeedsSmall == {Seed0, Seed2, Seed2b, Seed3}
 SeedsNew   == {Seed0, Seed1}
 
 EmitDone ==
